@@ -303,14 +303,17 @@ func (n *NXRange) GetNbits() uint16 {
 	return uint16(n.end - n.start + 1)
 }
 
-func big2byte(i *big.Int, length uint8) *ByteArrayField {
+func big2byte(i *big.Int, length uint8) (*ByteArrayField, error) {
 	bytes := i.Bytes()
+	if i.Sign() < 0 || len(bytes) > int(length) {
+		return nil, fmt.Errorf("value %s cannot be represented in a field of %d bytes", i.String(), length)
+	}
 	result := make([]byte, length)
 	copy(result[int(length)-len(bytes):], bytes)
 	return &ByteArrayField{
 		Length: uint8(len(result)),
 		Data:   result,
-	}
+	}, nil
 }
 
 func rangeMask(start, length uint) *big.Int {
